@@ -363,7 +363,9 @@ def run(rep, model):
         n += 1
         rel, line = _where(model, name.replace('expr:', ''))
         try:
-            r = evaluate(model, b, entries, len(spec) < 3)
+            from ..core import with_budget
+            r = with_budget(lambda: evaluate(model, b, entries,
+                                             len(spec) < 3))
         except (Undecided, Fork) as e:
             rep.undecided('R5', name, str(e), rel)
             continue
